@@ -1352,7 +1352,9 @@ class Server:
             return True
 
         real_path, virtual_path = self.get_paths(connection, rest)
-        if await connection.path_io.is_dir(real_path.parent):
+        # parent of virtual root is outside of user's base path
+        is_root = virtual_path == virtual_path.parent
+        if not is_root and await connection.path_io.is_dir(real_path.parent):
             coro = stor_worker(self, connection, rest)
             task = asyncio.create_task(coro)
             connection.extra_workers.add(task)
